@@ -42,6 +42,24 @@ def pFeeds : List String → Option (List Feed)
     | _, _, _, _ => none
   | _ => none
 
+/-- feeds of a native batch (`nbatch`): real `PriceFeed` accounts, so one multiplier for min /
+max / reference, `min ≤ ref ≤ max`, and flags for the token being enabled, the feed's provider
+being the expected one, and the feed id matching. `none` = outside the protocol (bad-op). -/
+def pNFeeds (now : Int) : List String → Option (List Feed)
+  | [] => some []
+  | tok :: adj :: found :: adjm :: ratio :: ots :: slot :: mn :: mx :: m :: rf :: en :: pv :: fm :: rest =>
+    match allNat [tok, adj, found, adjm, ratio, slot, mn, mx, m, rf, en, pv, fm], pInt ots, pNFeeds now rest with
+    | some [tok, adj, found, adjm, ratio, slot, mn, mx, m, rf, en, pv, fm], some ots, some fs =>
+      if m ≤ 20 ∧ m % 2 = 0 ∧ mn ≤ rf ∧ rf ≤ mx ∧ mx < 2 ^ 32 ∧ adj ≤ 1 ∧ found ≤ 1 ∧ en ≤ 1 ∧ pv ≤ 1 ∧ fm ≤ 1 ∧
+         0 ≤ ots ∧ now - ots ≤ 4000000000 ∧ ots - now ≤ 4000000000 then
+        some ({ token := tok, enabled := en == 1, expectedProvider := 0, provider := if pv = 1 then 0 else 1,
+                feedMatches := fm == 1, allowAdjust := adj == 1,
+                cfg := { found := found == 1, adjustment := adjm, devFactor := devOfRatio ratio },
+                oracleTs := ots, slot := slot, price := ⟨⟨mn, m⟩, ⟨mx, m⟩⟩, ref := some ⟨rf, m⟩ } :: fs)
+      else none
+    | _, _, _ => none
+  | _ => none
+
 def showOracle (o : Oracle) : String :=
   let ps := o.prices.toArray.qsort (fun a b => a.1 < b.1) |>.toList
   let ps := ps.map (fun (t, p) => s!"{t}:{p.min.unit}:{p.max.unit}")
@@ -88,6 +106,20 @@ def orcEngine (args : List String) : String :=
        | (.error e, o') => s!"{showVErr e} || {showOracle o'}"
        | (.ok (ok, o1), o') => s!"ok {showOracle o1} || {if ok then "f-ok" else "f-err"} {showOracle o'}")
     | _, _, _ => "bad-op"
+  | "nbatch" :: now :: maxAge :: maxRange :: maxFuture :: fOk :: n :: rest =>
+    match pInt now, allNat [maxAge, maxRange, maxFuture, fOk, n] with
+    | some now, some [maxAge, maxRange, maxFuture, fOk, n] =>
+      (match pNFeeds now rest with
+       | none => "bad-op"
+       | some feeds =>
+        if feeds.length ≠ n ∨ fOk > 1 then "bad-op" else
+        -- distinct tokens only (the token map is append-only)
+        if (feeds.map (·.token)).eraseDups.length ≠ n then "bad-op" else
+        let v : Validator := { now := now, maxAge := maxAge, maxRange := maxRange, maxFuture := maxFuture }
+        match withPrices orcUnit {} v feeds (fOk == 1) with
+        | (.error e, o') => s!"{showVErr e} || {showOracle o'}"
+        | (.ok (ok, o1), o') => s!"ok {showOracle o1} || {if ok then "f-ok" else "f-err"} {showOracle o'}")
+    | _, _ => "bad-op"
   | _ => "bad-op"
 
 end Gmx.Drv.OrcE
